@@ -15,7 +15,11 @@ MODULE = __name__
 
 NAME_POOL = [sp for _, sps in N.item_names()[:6] for sp in sps]
 KEY_POOL = ['k', 'K', 'key 1', '', ' ', '\u00e9', 'e\u0301', '\u00c9', '\u00c5', 'A\u030a', 'x\u0323\u0307',
-            'x\u0307\u0323', '\U0001f600', "a'b", 'a"b', ';', '\\', 'long' * 30]
+            'x\u0307\u0323', '\U0001f600', "a'b", 'a"b', ';', '\\', 'long' * 30,
+            # a composition exclusion (its NFC form is one unit longer than the key as given), the same key spelled
+            # out, and the different key it would become if its last unit were lost; compatibility look-alikes, which
+            # are different keys
+            'k\u0958', 'k\u0915\u093c', 'k\u0915', 'x\u00b2', 'x2', '\ufb01', 'fi', '\u00b5', '\u03bc']
 BAD_KEYS = ['a\x01', 'b\ufffe', 'c\ud800', '\udc00d', 'e\ufdd0', 'f\x7f', 'g\U0001ffff']
 
 
